@@ -280,6 +280,7 @@ def run_case(case, work, rec):
             return ("exc", type(e).__name__)
 
     kept = []       # results held while later selections run: they must not change afterwards
+    reread = []     # (selectors, result) of supported selections, for step (6)
 
     def judge(rec, outcome, data_lv, comps, boxes, fsup, bsup, key, nt, descr):
         judge_one(rec, outcome, data_lv, comps, boxes, fsup, bsup, key, nt, descr)
@@ -306,8 +307,11 @@ def run_case(case, work, rec):
         ids = [rng.randrange(nb) for _ in range(rng.randint(1, min(3, nb)))]
         for bd, bsel, boxes in ((f"int:{b}", b, b), (f"list:{ids}", ids, ids)):
             key = (digest, fd, lv, bd)
-            judge(rec, call(fsel, lv, bsel), data[lv], comps, boxes, fsup, True, key,
+            out1 = call(fsel, lv, bsel)
+            judge(rec, out1, data[lv], comps, boxes, fsup, True, key,
                   nontriv(comps, boxes, lv), f"[{fd}][{lv}][{bd}]")
+            if fsup and out1[0] == "val" and comps is not None and len(reread) < 40 and matches(out1[1], data[lv], comps, boxes)[0]:
+                reread.append((fsel, lv, bsel, out1[1], data[lv], comps, boxes, f"[{fd}][{lv}][{bd}]", key))
             rec.seen("field_forms", fd.split(":")[0])
             done += 1
         if done > case["budget"]:
@@ -336,12 +340,52 @@ def run_case(case, work, rec):
         judge(rec, out, data[exp_lv] if exp_lv is not None else None, 0 if exp_lv is not None else None,
               0 if exp_lv is not None else None, True, False, (digest, "lv", str(lvsel)), False,
               f"[int:0][level {lvsel!r}][int:0]")
+    # (5) one selector object used for point queries near box faces (not judged here: C19's subject) and then
+    # for box reads: what it returns afterwards is judged like any other selection
+    if case["kind"] == "gen" and m.ndims == 3:
+        for fd, fsel, comps, fsup in [x for x in fsels if x[3] and x[2] is not None][:6]:
+            lv = rng.randrange(nl)
+            nb = len(data[lv])
+            b = rng.randrange(nb)
+            bx = m.boxes[lv][b]
+            try:
+                sel = pck[fsel]
+            except Exception:
+                continue
+            for d in range(3):
+                for edge, off in ((bx.hi[d] + 1, -0.25), (bx.lo[d], 0.25), (bx.hi[d] + 1, -0.6)):
+                    pt = [m.geo_low[k] + (bx.lo[k] + 0.5 * bx.shape[k]) * m.dx[lv][k] for k in range(3)]
+                    pt[d] = m.geo_low[d] + (edge + off) * m.dx[lv][d]
+                    try:
+                        sel(*pt)
+                        rec.count("point_queries_before_reads")
+                    except Exception:
+                        rec.count("point_queries_before_reads_raised")
+            ids = [rng.randrange(nb) for _ in range(min(2, nb))]
+            for bd, bsel, boxes in ((f"int:{b}", b, b), (f"list:{ids}", ids, ids)):
+                try:
+                    out = ("val", sel[lv][bsel])
+                except Exception as e:
+                    out = ("exc", type(e).__name__)
+                judge(rec, out, data[lv], comps, boxes, fsup, True, (digest, fd, lv, bd, "after-points"),
+                      nontriv(comps, boxes, lv), f"[{fd}][{lv}][{bd}] on a selector first used for point queries")
     # (4) results returned earlier still hold the stored data (no aliasing of a buffer a later read reuses)
     for val, data_lv, comps, boxes, descr, key in kept:
         rec.count("results_rechecked_later")
         if not matches(val, data_lv, comps, boxes)[0]:
             rec.violation(f"a result returned earlier changed while later selections were read: {descr}",
                           key=key + ("later",), witness={"selection": descr})
+    # (6) what a read returned belongs to the caller: overwriting it must not change what later reads return
+    for fsel, lv, bsel, val, data_lv, comps, boxes, descr, key in list(reread)[:12]:
+        try:
+            for v in ([val] if isinstance(val, np.ndarray) else list(val)):
+                if isinstance(v, np.ndarray) and v.flags.writeable:
+                    v[...] = 7.7e77
+                    rec.count("results_overwritten_by_caller")
+        except Exception:
+            continue
+        judge(rec, call(fsel, lv, bsel), data_lv, comps, boxes, True, True, key + ("reread",), False,
+              descr + " read again after the caller overwrote the first result")
     # monitors: contracts evaluated in this case, pool log
     for k, v in contracts.COUNTS.items():
         rec.count("calls:" + k, v - n0.get(k, 0))
